@@ -8,6 +8,7 @@ import (
 	"fmt"
 	"io"
 	"os"
+	"strings"
 	"sync"
 	"time"
 
@@ -29,7 +30,58 @@ type injector struct {
 	k      int            // fail the k-th point of that class
 	fired  bool
 	events []string
-	hook   func() // called at every point (schedule perturbation for C11)
+	ptrace []string // projection of the events onto spec/Locks.tla's observable steps (see project)
+	hook   func()   // called at every point (schedule perturbation for C11)
+}
+
+// project appends the Locks.tla view of one seam event: drive acquire/release, collapsed
+// write/read activity, and the injected failure (an injected open failure stands for
+// TapeManager's lock + failed open + unlock).
+func (in *injector) project(ev string) {
+	push := func(e string) { in.ptrace = append(in.ptrace, e) }
+	switch ev {
+	case "getw", "closew", "getr", "closer":
+		push(ev)
+	case "write", "read":
+		if n := len(in.ptrace); n == 0 || in.ptrace[n-1] != ev {
+			push(ev)
+		}
+	case "openw!":
+		push("getw")
+		push("openfail")
+	case "openr!":
+		push("getr")
+		push("openfail")
+	case "write!", "read!", "meta!", "src!":
+		push("fail-" + strings.TrimSuffix(ev, "!"))
+	}
+}
+
+// settled waits until every acquired drive handle has been given back (a stream goroutine may
+// still be closing after the call returned) and returns the projected trace.
+func (in *injector) settled(max time.Duration) ([]string, bool) {
+	deadline := time.Now().Add(max)
+	for {
+		in.mu.Lock()
+		bal := 0
+		for _, e := range in.ptrace {
+			switch e {
+			case "getw", "getr":
+				bal++
+			case "closew", "closer", "openfail":
+				bal--
+			}
+		}
+		tr := append([]string{}, in.ptrace...)
+		in.mu.Unlock()
+		if bal == 0 {
+			return tr, true
+		}
+		if time.Now().After(deadline) {
+			return tr, false
+		}
+		time.Sleep(5 * time.Millisecond)
+	}
 }
 
 func (in *injector) arm(class string, k int) {
@@ -38,6 +90,7 @@ func (in *injector) arm(class string, k int) {
 	in.active, in.class, in.k, in.fired = true, class, k, false
 	in.counts = map[string]int{}
 	in.events = nil
+	in.ptrace = nil
 }
 
 func (in *injector) disarm() {
@@ -61,8 +114,12 @@ func (in *injector) point(class string) bool {
 	if fail {
 		in.fired = true
 		in.events = append(in.events, class+"!")
-	} else if len(in.events) < 400 {
-		in.events = append(in.events, class)
+		in.project(class + "!")
+	} else {
+		if len(in.events) < 400 {
+			in.events = append(in.events, class)
+		}
+		in.project(class)
 	}
 	return fail
 }
@@ -70,8 +127,11 @@ func (in *injector) point(class string) bool {
 func (in *injector) note(ev string) {
 	in.mu.Lock()
 	defer in.mu.Unlock()
-	if in.active && len(in.events) < 400 {
-		in.events = append(in.events, ev)
+	if in.active {
+		if len(in.events) < 400 {
+			in.events = append(in.events, ev)
+		}
+		in.project(ev)
 	}
 }
 
@@ -267,6 +327,15 @@ type FaultResult struct {
 	Fired      map[string]int `json:"fired"` // call kind/class -> injections that fired
 	Counts     map[string]int `json:"counts"`
 	Sample     []string       `json:"sample"`
+	Traces     []LockTrace    `json:"traces"`
+}
+
+// LockTrace is one observed execution of a call at the seams, for validation against spec/Locks.tla.
+type LockTrace struct {
+	ID      string   `json:"id"`
+	Desc    string   `json:"desc"`
+	Ev      []string `json:"ev"`
+	Settled bool     `json:"settled"`
 }
 
 func pickKs(n int, all bool) []int {
@@ -442,6 +511,10 @@ func runFault(it *FaultItem, ks *sut.KeySet, workRoot string) (res FaultResult) 
 	in.arm("", 0)
 	var cerr error
 	okc, pan := sut.Watchdog(callTimeout, func() { cerr = w.Do(it.Call) })
+	if okc && pan == nil {
+		tr, ok := in.settled(3 * time.Second)
+		res.Traces = append(res.Traces, LockTrace{ID: it.ID + "/free", Desc: it.Call.String() + " fault-free", Ev: tr, Settled: ok})
+	}
 	in.disarm()
 	if !okc || pan != nil {
 		add(it.Call, "fault-free execution did not return / panicked: %v", pan)
@@ -477,6 +550,10 @@ func runFault(it *FaultItem, ks *sut.KeySet, workRoot string) (res FaultResult) 
 			okc, pan := sut.Watchdog(callTimeout, func() { ferr = w.Do(it.Call) })
 			fired := in.fired
 			events := append([]string{}, in.events...)
+			if okc && pan == nil {
+				tr, ok := in.settled(3 * time.Second)
+				res.Traces = append(res.Traces, LockTrace{ID: fmt.Sprintf("%s/%s#%d", it.ID, class, k), Desc: it.Call.String() + " " + desc, Ev: tr, Settled: ok})
+			}
 			in.disarm()
 			if fired {
 				res.Fired[it.Call.Op+"/"+class]++
